@@ -6,6 +6,7 @@ import (
 	"bytes"
 	"fmt"
 	"math/rand"
+	"strings"
 	"sync"
 	"testing"
 	"time"
@@ -167,6 +168,9 @@ type c08Leave struct {
 	// an UpdateNode call is already inside the application's NodeMeta callback when Leave starts and
 	// only continues after Leave has returned
 	UpdateInFlight bool `json:"update_node_in_flight_across_leave,omitempty"`
+	// the leaver's name is so long (700 bytes) that its departure message, which carries the name twice,
+	// does not fit into one packet: Leave cannot deliver it and must not claim that it did
+	LongName bool `json:"leaver_name_700_bytes,omitempty"`
 }
 
 func runC08Leave(run *Run, seed int64, sc c08Leave, rng *rand.Rand) (out []*c01Result, logs map[string][]string) {
@@ -203,7 +207,11 @@ func runC08Leave(run *Run, seed int64, sc c08Leave, rng *rand.Rand) (out []*c01R
 		return f
 	}
 	for i := 0; i < sc.N; i++ {
-		if _, err := c.Add(NodeSpec{Name: fmt.Sprintf("n%d", i), Meta: []byte(fmt.Sprintf("m%d", i)), Mutate: func(cf *memberlist.Config) {
+		name := fmt.Sprintf("n%d", i)
+		if sc.LongName && i == sc.N-1 {
+			name += "-" + strings.Repeat("x", 700-len(name)-1)
+		}
+		if _, err := c.Add(NodeSpec{Name: name, Meta: []byte(fmt.Sprintf("m%d", i)), Mutate: func(cf *memberlist.Config) {
 			cf.PushPullInterval = 4 * time.Second
 			cf.GossipToTheDeadTime = 10 * time.Minute // peers keep the departed record for the whole scenario
 		}}); err != nil {
@@ -350,6 +358,9 @@ func runC08Leave(run *Run, seed int64, sc c08Leave, rng *rand.Rand) (out []*c01R
 			run.Cell("race", sc.Race, fmt.Sprintf("%+d", sc.RaceRel))
 		}
 	}
+	if sc.LongName {
+		run.Cell("leave", "name-700-bytes", fmt.Sprintf("err=%v", leaveErr != nil))
+	}
 	run.Cell("leave", sc.Mode, fmt.Sprintf("race=%s%+d", sc.Race, sc.RaceRel), fmt.Sprintf("err=%v", leaveErr != nil), fmt.Sprintf("suspects-all=%v", sc.SuspectPeers))
 	if took > sc.Timeout+time.Millisecond {
 		fail("leave-overran-timeout", "Leave(%v) returned after %v", sc.Timeout, took)
@@ -375,7 +386,20 @@ func runC08Leave(run *Run, seed int64, sc c08Leave, rng *rand.Rand) (out []*c01R
 	alives := append([][]byte(nil), oldAlives...)
 	tapMu.Unlock()
 	if sawOthers && dep == 0 {
-		fail("no-departure-sent", "Leave returned nil with %d other members known, but no packet carrying the departure (dead{Node=From=%s}) left for a live peer", len(peers), X.Name)
+		nm := X.Name
+		if len(nm) > 40 {
+			nm = nm[:40] + "..."
+		}
+		if sc.LongName && leaveErr != nil {
+			// registered finding: the first Leave rightly failed (the departure, which carries the 700-byte name
+			// twice, fits no packet), but a second Leave call reports success without having sent anything
+			fail("no-departure-sent/second-leave-after-timeout/oversize-departure", "the first Leave(%v) returned %q; a second Leave returned nil although no packet carrying the departure (dead{Node=From=%s}, %d-byte name) has left or can leave", sc.Timeout, leaveErr, nm, len(X.Name))
+			return
+		}
+		fail("no-departure-sent", "Leave returned nil with %d other members known, but no packet carrying the departure (dead{Node=From=%s}) left for a live peer", len(peers), nm)
+	}
+	if sc.LongName {
+		return // the rest of the scenario is about a departure that was announced
 	}
 	// settle, then (b)
 	Settle(30 * time.Second)
@@ -523,6 +547,10 @@ func TestC08(t *testing.T) {
 		}
 		if i%6 == 2 && sc.Mode == "responsive" {
 			sc.UpdateInFlight = true
+		}
+		if i%9 == 4 {
+			sc.LongName = true
+			sc.Timeout = 2 * time.Second
 		}
 		// every third scenario exercises the accusation race
 		if i%3 == 0 {
